@@ -357,7 +357,40 @@ fn compare_disk(project: &Path, m: &Model) -> Result<(), String> {
 
 const PROJECT_REL: &str = "hist/project";
 
+/// Every string of the case that is (or resolves to something that is) handed to the API.
+pub fn strings_of(case: &HistCase) -> Vec<String> {
+    let tgt = |t: &Tgt| match t {
+        Tgt::Path(p) => p.clone(),
+        Tgt::Victim { fallback } | Tgt::Hot { fallback } => fallback.clone(),
+    };
+    let mut out = Vec::new();
+    for op in &case.ops {
+        match op {
+            HOp::Open { path, .. } | HOp::Apply { path, .. } | HOp::Noise { path, .. } => out.push(tgt(path)),
+            HOp::CreateFile { path, .. } | HOp::CreateDir { path, .. } | HOp::Delete { path, .. } => out.push(path.clone()),
+            HOp::Rename { path, to, .. } => {
+                out.push(path.clone());
+                out.push(to.clone());
+            }
+        }
+    }
+    out
+}
+
+/// History strings are plain relative names: no `{S}`, no parent-like component at all.
+fn guard_plain(t: &str) -> Result<(), String> {
+    super::guard::check_template(t).map_err(|why| format!("unsafe: {t:?}: {why}"))?;
+    if t.contains("{S}") || t.contains("..") || t.contains('\\') || t.contains('%') || !t.is_ascii() {
+        return Err(format!("unsafe: {t:?}: history paths must be plain relative ASCII names"));
+    }
+    Ok(())
+}
+
 pub fn run_case(case: &HistCase, scratch: &Path, exclude_f32: bool, probe: &mut Probe) -> Result<(), String> {
+    // containment: validate the whole case before a single call runs
+    for t in strings_of(case) {
+        guard_plain(&t)?;
+    }
     let strict = case.raw || !exclude_f32;
     let nsess = case.sessions.clamp(1, 4) as usize;
     let root = scratch.join("hist");
@@ -677,6 +710,10 @@ pub fn run_case(case: &HistCase, scratch: &Path, exclude_f32: bool, probe: &mut 
                 ];
                 trace.push(format!("#{i} s{s} {} on {p:?} -> {what:?}", NOISE[(kind % 8) as usize]));
             }
+        }
+        if let Err(why) = super::moat().intact() {
+            result = Err(fail(&trace, format!("a call reached above the scratch project: {why}")));
+            break 'ops;
         }
         if let Err(e) = compare_disk(&project, &m) {
             result = Err(if e.starts_with("infrastructure:") { e } else { fail(&trace, e) });
